@@ -177,14 +177,31 @@ def jobs(tier):
             if all(c[0] == 'ok' for c in combo):
                 continue
             J([[c[0], 'read' if i % 2 == 0 else 'write'] + c[1:] for i, c in enumerate(combo)] + [['ok', 'read']], wall=1800)
+        # the late answer (after the caller's timeout) in every position of a history of 3
+        for combo in itertools.product(kinds + [['late']], repeat=2):
+            for pos in range(3):
+                ops = list(combo)
+                ops.insert(pos, ['late'])
+                J([[c[0], 'write' if i % 2 == 0 else 'read'] + c[1:] for i, c in enumerate(ops)] + [['ok', 'write']], wall=1800)
+        # histories of 6 operations: every failure kind once, in rotated orders, successes in between
+        allk = [['wrong_key'], ['refuse_proceed'], ['refuse_respond', 0x1002], ['error_dm15', 0x10], ['absent'], ['late']]
+        for r in range(6):
+            rot = allk[r:] + allk[:r]
+            J([[c[0], 'read' if (i + r) % 2 else 'write'] + c[1:] for i, c in enumerate(rot[:5])] + [['ok', 'read']], wall=3000)
+            J([[rot[0][0], 'read'] + rot[0][1:], ['ok', 'write'], [rot[1][0], 'write'] + rot[1][1:], [rot[2][0], 'read'] + rot[2][1:], ['ok', 'read'], ['ok', 'write']], wall=3000)
+        for cl in ('query',):
+            for combo in itertools.product(kinds, repeat=2):
+                if all(c[0] == 'ok' for c in combo) or any(c[0] == 'wrong_key' for c in combo):
+                    continue
+                J([[c[0], 'read' if i % 2 == 0 else 'write'] + c[1:] for i, c in enumerate(combo)] + [['ok', 'read']], wall=1800, client=cl, seed_key=False)
     return out
 
 
 def meta(tier):
     return {
-        'bounds': ['failure kinds: wrong key (the returned key is a symbolic 16-bit value, split by the solver into = / != expected), refusal at the proceed callback, refusal at respond(False, error), error DM15 from a scripted server for ' + ('10 codes incl. undefined ones' if tier == 'quick' else 'every defined code + undefined ones') + ', absent server',
-                   'reads and writes of 4 bytes (pointer, data, values, seed symbolic); histories of 2 operations (thorough: 4) mixing failures and successes on the same objects',
+        'bounds': ['failure kinds: wrong key (the returned key is a symbolic 16-bit value, split by the solver into = / != expected), refusal at the proceed callback, refusal at respond(False, error), error DM15 from a scripted server for ' + ('10 codes incl. undefined ones' if tier == 'quick' else 'every defined code + undefined ones') + ', absent server, server application answering after the caller\'s timeout',
+                   'reads and writes of 4 bytes (pointer, data, values, seed symbolic); histories of 2 operations (thorough: every history of 4, selected histories of 6) mixing failures and successes on the same objects, each operation with its own symbolic pointer',
                    'oracle after each failure: exception naming the code (and the library\'s text for defined codes) no later than the caller\'s timeout; callbacks and data only after the matching key; the next well-formed operation succeeds with the C17 oracle; all four state attributes idle at the end'],
-        'outside': ['timeouts other than 0.3 / 1 / 2.5 / 4 s', 'EDCP extension values other than 0x06/0x07 (the client treats the error indicator as not valid then)', 'histories longer than ' + ('2' if tier == 'quick' else '4'), 'multi-packet data in failure histories'],
+        'outside': ['timeouts other than 0.3 / 1 / 2.5 / 4 s', 'EDCP extension values other than 0x06/0x07 (the client treats the error indicator as not valid then)', 'histories longer than ' + ('3' if tier == 'quick' else '6'), 'multi-packet data in failure histories'],
         'assumptions': ['as C17'],
     }
